@@ -583,6 +583,180 @@ def cli_printf(ctx, libdir, exe, cases):
     return len(ok_cases)
 
 
+# ---------------------------------------------------------------------------------------------
+# nested (re-entrant) formatting
+# ---------------------------------------------------------------------------------------------
+# printf evaluates its arguments while it is half way through the format string. An argument expression may format something itself:
+# call sprintf (directly or in a user function), run a printf statement to another stream, convert a number through CONVFMT.
+# None of that may change what the outer printf / sprintf / print writes: it must still be the text sprintf returns for the
+# precomputed argument values (the in-process sprintf of the harness, itself compared with snprintf in the main run).
+NEST_PREAMBLE = '''function w_sp(x) { return sprintf("%s", x); }
+function w_num(x) { return sprintf("%s", x) + 0; }
+function w_flt(x,  t) { t = sprintf("%8.3f|%-*.*e|%+g", 2.5, 12, 3, 1234.5, 0.25); return x; }
+function w_pr(x) { printf "%6.2f<%*d>%s", 9.25, 4, 7, "nested" > "/dev/null"; return x; }
+function w_prb(x) { printf @b"%6.2f<%*d>%s", 9.25, 4, 7, "nested" > "/dev/null"; return x; }
+function w_cv(x,  t, u) { t = 0.5 ""; u = (3.14159 "") (1e-05 ""); return x; }
+function w_deep(x) { return w_flt(w_pr(w_cv(w_prb(x)))); }
+'''
+NEST_IDENT = ["w_flt", "w_pr", "w_prb", "w_cv", "w_deep"]       # return their argument untouched: usable on every value
+NEST_CLASS = {"w_sp": "an argument calls sprintf()", "w_num": "an argument calls sprintf()", "inline": "an argument calls sprintf()",
+              "w_flt": "an argument calls a function that calls sprintf() with float and * conversions",
+              "w_pr": "an argument calls a function that runs a printf statement to another stream",
+              "w_prb": "an argument calls a function that runs a byte-string printf statement to another stream",
+              "w_cv": "an argument converts numbers to strings through CONVFMT",
+              "w_deep": "an argument calls functions that call sprintf(), run printf to another stream and convert through CONVFMT"}
+
+
+def _nest_ok(c):
+    if c.extra is not None: return False
+    if c.val[0] == "n" or (c.conv == "c" and (c.val[0] in "if" and not (32 <= v_toint(c.val) % 65536 < 127) or c.val[0] == "s" and not c.val[1])): return False
+    if c.val[0] == "f" and c.val[1] == "-0.0": return False
+    if c.val[0] == "s" and any(ch in c.val[1] for ch in '"\\'): return False
+    return True
+
+
+def _wrappers_for(v, conv, is_star):
+    """wrappers that keep the value (and what the conversion makes of it) the same"""
+    ws = list(NEST_IDENT)
+    if is_star:
+        ws += ["w_sp", "w_num", "inline"]             # "7" and 7 are the same width
+    elif v[0] == "s":
+        ws += ["w_sp", "inline"]
+    elif v[0] == "i" and abs(v[1]) < 2 ** 53:
+        ws += ["w_num"]
+    elif v[0] == "f" and abs(v[2]) < 1e15 and float("%.6g" % v[2]) == v[2]:
+        ws += ["w_num"]
+    return ws
+
+
+def _wrap(w, lit):
+    if w == "inline": return 'sprintf("%%s", %s)' % lit
+    return "%s(%s)" % (w, lit)
+
+
+def _case_fmt_args(c):
+    wtxt = "" if c.w is None else (c.w[1] if c.w[0] == "lit" else "*")
+    ptxt = "" if c.p is None else ("." + (c.p[1] if c.p[0] == "lit" else "*"))
+    fmt = "%" + c.flags + wtxt + ptxt + c.conv + c.tail
+    args = []
+    if c.w is not None and c.w[0] == "star": args.append((("i", c.w[1]), True))
+    if c.p is not None and c.p[0] == "star": args.append((("i", c.p[1]), True))
+    args.append((c.val, False))
+    return fmt, args
+
+
+def _q(fmt):
+    return fmt.replace("\\", "\\\\").replace('"', '\\"')
+
+
+def nested_formatting(ctx, libdir, exe, cases, nwant):
+    """the "nested formatting" family (see above). Statements: printf (character and byte-string format), print sprintf(...),
+    two specifiers in one format, print through OFMT, assignment through CONVFMT; one wrapped argument position at a time and all at once"""
+    hawk = os.path.join(libdir, "hawk")
+    rng = ctx.rng
+    pool = [c for c in cases if _nest_ok(c)]
+    # the float and * paths rebuild the specifier text while arguments are evaluated: make them at least half of the sample
+    hot = [c for c in pool if c.conv in FLTCONV or (c.w and c.w[0] == "star") or (c.p and c.p[0] == "star")]
+    rng.shuffle(pool); rng.shuffle(hot)
+    sample = hot[:nwant // 2] + pool[:nwant - min(len(hot), nwant // 2)]
+    if not sample: return 0
+    res, st, _ = evaluate(ctx, exe, sample)
+    items = []          # (statement, expected units, class, description)
+    k = 0
+    for c, r in zip(sample, res):
+        h = r["h"]
+        if not isinstance(h, tuple) or any(x in (10, 0) or x > 126 for x in h): continue
+        fmt, args = _case_fmt_args(c)
+        pf = "printf @b" if c.mode == "B" else "printf "
+        # one position at a time
+        pos = k % len(args)
+        ws = _wrappers_for(args[pos][0], c.conv, args[pos][1])
+        w = ws[(k // 3) % len(ws)]
+        ex = [hawk_literal(v) for v, _ in args]
+        ex[pos] = _wrap(w, ex[pos])
+        items.append(('%s"%s", %s; printf "\\n";' % (pf, _q(fmt), ", ".join(ex)), h, w, "printf, argument %d of %s" % (pos + 1, c.desc)))
+        # all positions, and sprintf itself with nested arguments
+        ex2, used = [], []
+        for j, (v, star) in enumerate(args):
+            ws = _wrappers_for(v, c.conv, star)
+            w2 = ws[(k + 2 * j + 1) % len(ws)]
+            used.append(w2); ex2.append(_wrap(w2, hawk_literal(v)))
+        cls = next((u for u in used if u in ("w_pr", "w_prb", "w_deep")), used[0])
+        if k % 2 == 0:
+            items.append(('%s"%s", %s; printf "\\n";' % (pf, _q(fmt), ", ".join(ex2)), h, cls, "printf, every argument of %s" % c.desc))
+        else:
+            sf = "sprintf(@b" if c.mode == "B" else "sprintf("
+            items.append(('printf "%%s\\n", %s"%s", %s);' % (sf, _q(fmt), ", ".join(ex2)), h, cls, "sprintf with nested arguments, %s" % c.desc))
+        k += 1
+    # two specifiers in one format: the second one is rebuilt after the first argument was evaluated
+    both = [(c, r["h"]) for c, r in zip(sample, res) if c.mode == "S" and isinstance(r["h"], tuple) and not any(x in (10, 0) or x > 126 for x in r["h"])]
+    for i in range(0, len(both) - 1, 2):
+        (c1, h1), (c2, h2) = both[i], both[i + 1]
+        f1, a1 = _case_fmt_args(c1); f2, a2 = _case_fmt_args(c2)
+        ex, used = [], []
+        for j, (v, star) in enumerate(a1 + a2):
+            conv = c1.conv if j < len(a1) else c2.conv
+            ws = _wrappers_for(v, conv, star)
+            w = ws[(i + j) % len(ws)]
+            used.append(w); ex.append(_wrap(w, hawk_literal(v)))
+        cls = next((u for u in used if u in ("w_pr", "w_prb", "w_deep")), used[0])
+        items.append(('printf "%s", %s; printf "\\n";' % (_q(f1 + "|" + f2), ", ".join(ex)), h1 + (124,) + h2, cls, "printf with two specifiers: %s and %s" % (c1.desc, c2.desc)))
+    # print through OFMT and assignment through CONVFMT with formatting inside the argument expressions
+    fixed = []
+    for f, vals in (("%.3g", ["3.14159", "2.5", "0.1"]), ("%8.2e", ["1234.5", "0.000123"]), ("%.6g", ["65.25", "100000.5"])):
+        kf = max(f.rfind(ch) for ch in FLTCONV)
+        lf = f[:kf] + "L" + f[kf:]
+        for wi, v in enumerate(vals):
+            for w in (NEST_IDENT[(wi + len(f)) % len(NEST_IDENT)], "w_deep"):
+                fixed.append(('OFMT="%s"; print %s(%s); OFMT="%%.6g";' % (f, w, v), (lf, v), w, 'OFMT="%s"; print %s(%s)' % (f, w, v)))
+                fixed.append(('CONVFMT="%s"; nx = %s(%s) ""; CONVFMT="%%.6g"; print nx;' % (f, w, v), (lf, v), w, 'CONVFMT="%s"; x = %s(%s) ""' % (f, w, v)))
+    if fixed:
+        ro, _, _ = run_harness_par(exe, ["R\t%s\t%s" % (hx(lf), v) for _, (lf, v), _, _ in fixed], nproc=1)
+        for (stmt, _, w, d), o in zip(fixed, ro):
+            if o.startswith("C=") and o != "C=NA":
+                items.append((stmt, units(o[2:]), w, d))
+    prog = NEST_PREAMBLE + "BEGIN {\n" + "\n".join(it[0] for it in items) + "\n}\n"
+    pfile = os.path.join(ctx.scratch, "nested_cli.hawk")
+    open(pfile, "w").write(prog)
+    rc, out, err = C.sh(["timeout", "-s", "KILL", str(120 + len(items) // 50), hawk, "-f", pfile], timeout=150 + len(items) // 50, env=C.ASAN_ENV)
+    st = C.classify_rc(rc, err.decode(errors="replace"))
+    got = out.decode("utf-8", errors="replace").split("\n")
+
+    def run_one(stmt):
+        p1 = NEST_PREAMBLE + "BEGIN {\n" + stmt + "\n}\n"
+        f1 = os.path.join(ctx.scratch, "nested_one.hawk")
+        open(f1, "w").write(p1)
+        rc1, o1, e1 = C.sh(["timeout", "-s", "KILL", "30", hawk, "-f", f1], timeout=40, env=C.ASAN_ENV)
+        return p1, C.classify_rc(rc1, e1.decode(errors="replace")), o1.decode("utf-8", errors="replace").split("\n")[0]
+    reported = {}
+    nbad = 0
+    for i, (stmt, exp, w, d) in enumerate(items):
+        g = tuple(ord(ch) for ch in got[i]) if i < len(got) else None
+        if g == exp: continue
+        nbad += 1
+        cls = NEST_CLASS[w]
+        if cls in reported or len(reported) >= 3: continue
+        # confirm on the statement alone (the smallest replay); fall back to the whole program
+        p1, st1, g1 = run_one(stmt)
+        exps = "".join(chr(x) for x in exp)
+        if st1 != "ok" or g1 != exps:
+            reported[cls] = True
+            ctx.problem("impl", "NESTED FORMATTING (%s): %s writes %r (%s) but sprintf of the same argument values returns %r" % (cls, d, g1, st1, exps),
+                        "# hawk -f <program>; first output line expected: %r\n# ./check C12 --replay <this file>\nPROG\t%s\t%s\n# the program:\n# %s\n" %
+                        (exps, hx(p1), hx(exps), p1.replace("\n", "\n# ")), found_input=True)
+        elif st == "ok":
+            reported[cls] = True
+            ctx.problem("impl", "NESTED FORMATTING (%s): statement %d of the generated program (%s) writes %s but sprintf of the same argument values returns %r; alone the statement is right: "
+                        "state left behind by an earlier statement" % (cls, i, d, show(g), exps),
+                        "# hawk -f <program>; output line %d expected: %r\nPROG\t%s\t%s\t%d\n" % (i, exps, hx(prog), hx(exps), i), found_input=True)
+    if st != "ok" and not reported:
+        ctx.problem("impl", "hawk CLI running %d statements with nested formatting ended with %s: %s" % (len(items), st, err.decode(errors="replace")[-300:]),
+                    "PROG\t%s\t%s\n" % (hx(prog), hx("")), found_input=True)
+    ctx.coverage["nested_formatting"] = dict(statements=len(items), failing=nbad,
+                                             by_wrapper={w: sum(1 for it in items if it[2] == w) for w in sorted({it[2] for it in items})})
+    return len(items)
+
+
 CONV_FMTS = ["%.6g", "%.3g", "%.0f", "%5.2f|", "%e", "%G", "%-12.4e|", "%+.2f", "%#.3g", "% g", "%010.3f", "%.10g", "%s", "%d", "%x", "%5d|", "%c", "%.*g", "%y", "%g%%", "[%f]"]
 CONV_VALUES = ["3.14159", "1.5", "-0.0", "100000.0", "1000000.0", "1234567.0", "0.000123", "-2.5", "3.0", "0.1", "65.25", "1e-05", "123456789012.0", "1e+18"]
 
@@ -850,6 +1024,8 @@ def run(ctx):
     step = max(1, len(sub) // (1500 if ctx.tier == "quick" else 6000))
     evaluations += cli_printf(ctx, libdir, exe, sub[::step])
     ctx.log("printf through the CLI done")
+    evaluations += nested_formatting(ctx, libdir, exe, sub, 700 if ctx.tier == "quick" else 4000)
+    ctx.log("nested formatting done")
     evaluations += convfmt_checks(ctx, libdir, exe)
     evaluations += scratch_growth_check(ctx, exe)
     ctx.log("CONVFMT/OFMT done")
@@ -861,7 +1037,8 @@ def run(ctx):
                     "(flags in any order with repeats, literal/*/negative widths and precisions up to 10^4, 28 values + random integers) + seeded random multi-specifier formats"
                     + ("; thorough adds the full 32x8x7x13x28 grid" if ctx.tier == "thorough" else "") +
                     "; each case: hawk sprintf vs libc snprintf (equivalently typed argument), hawk vs Lean model (float pieces rendered by libc with the model's specifier), "
-                    "CSpec.render vs snprintf; plus printf via the CLI on a sample and CONVFMT/OFMT conversions. "
+                    "CSpec.render vs snprintf; plus printf via the CLI on a sample, CONVFMT/OFMT conversions, and the nested-formatting family (printf/sprintf/print whose argument "
+                    "expressions themselves call sprintf, run printf to another stream or convert through CONVFMT, one argument position at a time and all at once, compared with sprintf of the plain values). "
                     "distinct_nontrivial = distinct (format,arguments) whose specifier has a flag, a width or a precision",
                     samples, extra_cov=dict(conversion_distribution=dist, comparisons=ncmp, harness_status=status),
                     trusted=["run.c/fmt-imp.h/fmt.c formatter modelled by hand in HawkModel/Fmt.lean (value conversions valtoint/valtoflt/valtostr, GROW buffers, %k %K %w %W not modelled)",
@@ -885,6 +1062,20 @@ def replay(ctx, path):
             bad += len(pj)
         if st != "ok":
             print("harness status:", st, err[-800:]); bad += 1
+    for l in [l for l in lines if l.split("\t")[0] == "PROG"]:
+        f = l.split("\t")
+        prog = "".join(chr(x) for x in units_hex(f[1])); exp = "".join(chr(x) for x in units_hex(f[2])) if len(f) > 2 else ""
+        k = int(f[3]) if len(f) > 3 else 0
+        pfile = os.path.join(ctx.scratch, "replay.hawk")
+        open(pfile, "w").write(prog)
+        rc, out, err = C.sh(["timeout", "-s", "KILL", "120", os.path.join(libdir, "hawk"), "-f", pfile], timeout=150, env=C.ASAN_ENV)
+        got = out.decode("utf-8", errors="replace").split("\n")
+        g = got[k] if k < len(got) else None
+        st = C.classify_rc(rc, err.decode(errors="replace"))
+        okp = (st == "ok" and g == exp)
+        print("program (%d lines) -> output line %d = %r, expected %r, status %s: %s" % (prog.count("\n"), k, g, exp, st, "ok" if okp else "<<< DIFFERENT"))
+        bad += 0 if okp else 1
+    lines = [l for l in lines if l.split("\t")[0] != "PROG"]
     other = [l for l in lines if l.split("\t")[0] not in ("S", "B")]
     if other:
         out, st, err = run_harness_par(exe, other, nproc=1)
